@@ -509,13 +509,16 @@ func (a *Agent) checkPreconditions() error {
 	return nil
 }
 
-// lockSocket takes an exclusive advisory lock on the DAG definition file, which
-// every start of the same DAG shares. The returned function releases it and may
-// be called more than once. A DAG without a definition file is not locked.
+// lockSocket takes an exclusive advisory lock that every start of the same DAG
+// shares. The lock lives on a file of its own next to the socket address: the
+// DAG definition file is not suitable because saving a definition replaces it
+// by a new file (a new inode), which a later start could lock at once. The lock
+// file is created on demand and never removed. The returned function releases
+// the lock and may be called more than once.
 func (a *Agent) lockSocket() (func(), error) {
-	f, err := os.Open(a.dag.Location)
+	f, err := os.OpenFile(a.dag.SockAddr()+".lock", os.O_CREATE|os.O_RDWR, 0600)
 	if err != nil {
-		return func() {}, nil
+		return nil, err
 	}
 	if err := syscall.Flock(int(f.Fd()), syscall.LOCK_EX); err != nil {
 		_ = f.Close()
